@@ -161,4 +161,30 @@ Before(l, r) ==
   ELSE IF SigLess(r.sig, l.sig) THEN FALSE
   ELSE IF Len(l.ids) # Len(r.ids) THEN Len(r.ids) > Len(l.ids)
   ELSE l.ids[1] < r.ids[1]
+
+---------------------------------------------------------------------------
+(* The aggregation as a FUNCTION of its input (C06): group the positions by
+   canonical key in order of first appearance, generalise each group, order
+   the groups with the comparator (a strict total order on buckets of one
+   snapshot, because ties end on the smallest id).  MC_Agg checks that every
+   execution of the greedy loop, for every map iteration order, ends in
+   exactly this value.                                                      *)
+RECURSIVE GroupsOf(_,_,_,_)
+GroupsOf(sigs, lvl, p, acc) ==
+  IF p > Len(sigs) THEN acc
+  ELSE LET k == Key(sigs[p], lvl)
+           hit == {g \in 1..Len(acc) : Key(sigs[acc[g][1]], lvl) = k} IN
+       IF hit = {} THEN GroupsOf(sigs, lvl, p + 1, Append(acc, <<p>>))
+       ELSE LET g == CHOOSE x \in hit : TRUE IN
+            GroupsOf(sigs, lvl, p + 1, [acc EXCEPT ![g] = Append(@, p)])
+RECURSIVE SelectSort(_)
+SelectSort(B) == IF B = {} THEN <<>>
+                 ELSE LET m == CHOOSE x \in B : \A y \in B \ {x} : Before(x, y) IN <<m>> \o SelectSort(B \ {m})
+(* ids[p] = goroutine id of position p *)
+Canon(sigs, ids, lvl) ==
+  LET G == GroupsOf(sigs, lvl, 1, <<>>)
+      bucket(g) == [sig |-> Generalise([x \in 1..Len(G[g]) |-> sigs[G[g][x]]]),
+                    ids |-> SortSeq([x \in 1..Len(G[g]) |-> ids[G[g][x]]], <),
+                    first |-> G[g][1] = 1]
+  IN SelectSort({bucket(g) : g \in 1..Len(G)})
 =============================================================================
